@@ -57,6 +57,13 @@ def worlds(tier):
     for n in (1, 2):
         for combo in itertools.product(inn2, repeat=n):
             yield combo
+    # one object listed three / four times in one collection (every occurrence is a row)
+    many = [(1, 1, 1), (2, 2, 2, 2), (3, 1, 3, 3)]
+    for m in many:
+        yield (m,)
+        for other in ((), (1,), (2, 3), 3, (1, 1, 1)):
+            yield (m, other)
+            yield (other, m)
     if tier == "quick":
         small = [(), (1,), (1, 1), (1, 2), (2, 3), 3]
         for combo in itertools.product(small, repeat=3):
